@@ -83,6 +83,7 @@ def gen_source(rng):
     else:
         spec["prov"] = "ugrid_mem"
         spec["dialect"] = {"lon360": rng.random() < 0.5, "start": rng.choice([0, 1])}
+        spec["dialect"].update(as_coords=rng.random() < 0.3, ugrid_edges=rng.random() < 0.4, edge_flip=rng.random() < 0.5)
     if rng.random() < 0.25:
         # the grid being sliced is itself the result of an earlier selection (nested subsets)
         spec["subset"] = [rng.randrange(1000) for _ in range(rng.randint(3, 12))]
